@@ -53,6 +53,11 @@ func c17Keys() []c17Key {
 		p := fab(bits)
 		ks = append(ks, c17Key{Name: fmt.Sprintf("rsa-modulus-%d-bits", bits), Pub: p, Family: "rsa", RSAOK: bits >= 2048})
 	}
+	// public exponents other than 65537: the statement restricts the modulus only
+	for _, e := range []int{3, 17, 65539, 1<<31 - 1} {
+		p := fab(2048)
+		ks = append(ks, c17Key{Name: fmt.Sprintf("rsa-2048-public-exponent-%d", e), Pub: &rsa.PublicKey{N: p.N, E: e}, Family: "rsa", RSAOK: true})
+	}
 	for _, c := range []struct {
 		n string
 		c elliptic.Curve
